@@ -4,8 +4,10 @@
 -/
 import Upnp.Spec.C10
 import Upnp.Lemmas.PyDict
+set_option linter.unusedSectionVars false
 namespace Upnp.C10
 open Upnp PyDict Upnp.C09
+variable [FloatOracle]
 
 theorem dropWhile_append_all {α : Type} (p : α → Bool) (a b : List α) (h : ∀ x ∈ a, p x = true) :
     (a ++ b).dropWhile p = b.dropWhile p := by
